@@ -345,4 +345,434 @@ theorem walk_listing (es : List Entry) (stop : Entry → Bool) (load : Option Cu
   · intro e he items
     exact Hc e (hsub e he).1 (hsub e he).2 items
 
+/-! ### the by-name and by-class listings -/
+
+/-- the boards a complete walk must return, in the order it must return them. -/
+def visible (es : List Entry) (isAsc : Bool) : List Entry := (oriented es isAsc).filter listable
+
+theorem window_nostop (es : List Entry) (isAsc : Bool) : window es (fun _ => false) isAsc 0 = visible es isAsc := by
+  unfold window visible
+  have : ∀ l : List Entry, l.takeWhile (fun _ => true) = l := by
+    intro l; induction l with
+    | nil => rfl
+    | cons a r ih => simp [List.takeWhile_cons, ih]
+  simp [this]
+
+theorem listable_cstr_ne (e : Entry) (h : listable e = true) : cstr e.b.name ≠ [] := by
+  unfold listable at h
+  simp only [Bool.and_eq_true, bne_iff_ne, ne_eq] at h
+  intro hc
+  cases hn : e.b.name with
+  | nil => rw [hn] at h; simp at h
+  | cons x xs =>
+    rw [hn] at h hc
+    rw [cstr_cons] at hc
+    simp only [List.getD_cons_zero] at h
+    rw [if_neg h.1] at hc
+    cases hc
+
+theorem listable_nkey_ne (e : Entry) (h : listable e = true) : nkey e ≠ [] := by
+  have := listable_cstr_ne e h
+  unfold nkey low
+  intro hc
+  exact this (List.map_eq_nil_iff.mp hc)
+
+theorem low_cursor_name (nameLen : Nat) (e : Entry) (hl : e.b.name.length = nameLen) :
+    low (copyInto nameLen (cstr e.b.name)) = nkey e := by
+  unfold low nkey low
+  rw [cstr_copyInto nameLen (cstr e.b.name) (cstr_nonzero _) (by rw [← hl]; exact cstr_length_le _)]
+  try rw [cstr_idem]
+
+theorem unique0_of_key (c : Entry → Int) (es : List Entry) (K : List Nat) (hK : K ≠ [])
+    (h : ∀ e ∈ es, c e = 0 → nkey e = K) (D : DistinctNames es) : Unique0 c es := by
+  intro i j hi hj h1 h2
+  have e1 := h _ (List.getElem_mem hi) h1
+  have e2 := h _ (List.getElem_mem hj) h2
+  have D' := List.pairwise_iff_getElem.mp D
+  rcases Nat.lt_trichotomy i j with hlt | heq | hlt
+  · have := D' i j hi hj hlt (by rw [e1, e2])
+    rw [e1] at this; exact absurd this hK
+  · exact heq
+  · have := D' j i hj hi hlt (by rw [e1, e2])
+    rw [e2] at this; exact absurd this hK
+
+theorem nextCursor_name (e : Entry) (h : listable e = true) (items : List Entry) :
+    nextCursor .name ⟨items, some e⟩ = some (cursorOf e) := by
+  simp only [nextCursor]
+  rw [if_neg (listable_cstr_ne e h)]
+
+/-- paging the by-name listing. -/
+theorem walkGeneral_name (t : Tbl) (hn : NamesLen t.nameLen t.byName) (hv : ∀ e ∈ t.byName, e.bid + 1 ≤ t.maxBoard)
+    (S : SortedBy lexCmp nkey t.byName) (D : DistinctNames t.byName) (n : Nat) (h1 : 1 ≤ n) (isAsc : Bool) :
+    walkGeneral t .name (n : Int) isAsc =
+      .ok (pagesOf n (visible t.byName isAsc).length (visible t.byName isAsc)) := by
+  unfold walkGeneral
+  show walkFrom _ .name (walkFuel t.byName.length) none = _
+  rw [← window_nostop]
+  apply walk_listing t.byName (fun _ => false) _ .name isAsc n h1 0
+  · -- first page
+    show loadGeneral t .name none (n : Int) isAsc = _
+    unfold loadGeneral startOfCursor
+    simp only [bind, Except.bind, pure, Except.pure]
+    rw [if_neg (by split <;> omega)]
+    exact liftM_ok _ _ (pttLoad_first t.byName (fun _ => false) n isAsc)
+  · intro p hp hl
+    show loadGeneral t .name (some (cursorOf t.byName[p])) (n : Int) isAsc = _
+    obtain ⟨q, hq⟩ : ∃ q, q = copyInto t.nameLen (cursorOf t.byName[p]).name := ⟨_, rfl⟩
+    have hlow : low q = nkey t.byName[p] := by
+      rw [hq]; exact low_cursor_name t.nameLen _ (hn _ (List.getElem_mem hp))
+    have Mn : Mono (cmpNameP q) t.byName :=
+      mono_of_sorted lexLaws nkey (low q) (cmpNameP q) t.byName (fun e _ => cmpNameP_sign q e) S
+    have U : Unique0 (cmpNameP q) t.byName := by
+      apply unique0_of_key _ _ (nkey t.byName[p]) (listable_nkey_ne _ hl) _ D
+      intro e _ h0
+      have := (lexCmp_eq_iff _ _).mp ((cmpNameP_sign q e).2.1.mp h0)
+      rw [← this, hlow]
+    have h0 : cmpNameP q t.byName[p] = 0 := by
+      apply (cmpNameP_sign q _).2.1.mpr
+      rw [hlow]; exact lexCmp_refl _
+    have hf := findIdx_self t.maxBoard (cmpName q) (cmpNameP q) (cmpName_eq q) t.byName Mn hv U p hp h0 isAsc
+    unfold loadGeneral startOfCursor
+    simp only [bind, Except.bind, pure, Except.pure]
+    rw [← hq, liftM_ok _ _ hf]
+    simp only
+    rw [if_neg (by simp only [Int.ofNat_eq_natCast]; omega)]
+    rfl
+  · intro e _ hl items
+    exact nextCursor_name e hl items
+
+/-- the hypotheses on a by-class view. -/
+structure ClassView (t : Tbl) : Prop where
+  names : NamesLen t.nameLen t.byClass
+  valid : ∀ e ∈ t.byClass, e.bid + 1 ≤ t.maxBoard
+  sorted : SortedBy cmpC ckey t.byClass
+  distinct : DistinctNames t.byClass
+  classOK : ∀ e ∈ t.byClass, ClassOK e
+  noAt : ∀ e ∈ t.byClass, (cstr e.b.name).contains 64 = false
+
+/-- paging the by-class listing. -/
+theorem walkGeneral_class (t : Tbl) (H : ClassView t) (n : Nat) (h1 : 1 ≤ n) (isAsc : Bool) :
+    walkGeneral t .cls (n : Int) isAsc =
+      .ok (pagesOf n (visible t.byClass isAsc).length (visible t.byClass isAsc)) := by
+  unfold walkGeneral
+  show walkFrom _ .cls (walkFuel t.byClass.length) none = _
+  rw [← window_nostop]
+  apply walk_listing t.byClass (fun _ => false) _ .cls isAsc n h1 0
+  · show loadGeneral t .cls none (n : Int) isAsc = _
+    unfold loadGeneral startOfCursor
+    simp only [bind, Except.bind, pure, Except.pure]
+    rw [if_neg (by split <;> omega)]
+    exact liftM_ok _ _ (pttLoad_first t.byClass (fun _ => false) n isAsc)
+  · intro p hp hl
+    show loadGeneral t .cls (some (cursorOf t.byClass[p])) (n : Int) isAsc = _
+    obtain ⟨q, hq⟩ : ∃ q, q = copyInto t.nameLen (cursorOf t.byClass[p]).name := ⟨_, rfl⟩
+    obtain ⟨cls, hcls⟩ : ∃ cls, cls = (cursorOf t.byClass[p]).cls := ⟨_, rfl⟩
+    have hlow : low q = nkey t.byClass[p] := by
+      rw [hq]; exact low_cursor_name t.nameLen _ (H.names _ (List.getElem_mem hp))
+    have hQ : (cstr cls, low q) = ckey t.byClass[p] := by
+      rw [hcls, hlow]; unfold ckey cursorOf nkey; simp only [cstr_idem]
+    have hs : ∀ e ∈ t.byClass, (cmpClassP cls q e < 0 ↔ cmpC (cstr cls, low q) (ckey e) = .lt) ∧
+        (cmpClassP cls q e = 0 ↔ cmpC (cstr cls, low q) (ckey e) = .eq) ∧
+        (0 < cmpClassP cls q e ↔ cmpC (cstr cls, low q) (ckey e) = .gt) :=
+      fun e he => cmpClassP_sign cls q e (H.classOK e he)
+    have Mn : Mono (cmpClassP cls q) t.byClass :=
+      mono_of_sorted classLaws ckey (cstr cls, low q) (cmpClassP cls q) t.byClass hs H.sorted
+    have U : Unique0 (cmpClassP cls q) t.byClass := by
+      apply unique0_of_key _ _ (nkey t.byClass[p]) (listable_nkey_ne _ hl) _ H.distinct
+      intro e he h0
+      have := (classLaws.eq_iff _ _).mp ((hs e he).2.1.mp h0)
+      rw [hQ] at this
+      have h2 : (ckey t.byClass[p]).2 = (ckey e).2 := by rw [this]
+      exact h2.symm
+    have h0 : cmpClassP cls q t.byClass[p] = 0 := by
+      apply (hs _ (List.getElem_mem hp)).2.1.mpr
+      rw [hQ]; exact classLaws.refl _
+    have hf := findIdx_self t.maxBoard (cmpClass cls q) (cmpClassP cls q) (cmpClass_eq cls q) t.byClass Mn H.valid U p hp
+      h0 isAsc
+    unfold loadGeneral startOfCursor
+    simp only [bind, Except.bind, pure, Except.pure]
+    have hna : (cursorOf t.byClass[p]).name.contains 64 = false := H.noAt _ (List.getElem_mem hp)
+    rw [hna]
+    simp only [Bool.false_eq_true, if_false]
+    rw [← hq, ← hcls, liftM_ok _ _ hf]
+    simp only
+    rw [if_neg (by simp only [Int.ofNat_eq_natCast]; omega)]
+    rfl
+  · intro e _ _ items
+    rfl
+
+/-! ### the auto-complete listing -/
+
+/-- the cursor of a listable board of the by-name view resolves to that board's position. -/
+theorem startOfCursor_name_self (t : Tbl) (hn : NamesLen t.nameLen t.byName)
+    (hv : ∀ e ∈ t.byName, e.bid + 1 ≤ t.maxBoard) (S : SortedBy lexCmp nkey t.byName) (D : DistinctNames t.byName)
+    (p : Nat) (hp : p < t.byName.length) (hl : listable t.byName[p] = true) (isAsc : Bool) :
+    startOfCursor t .name (some (cursorOf t.byName[p])) isAsc = .ok (Int.ofNat p + 1) := by
+  obtain ⟨q, hq⟩ : ∃ q, q = copyInto t.nameLen (cursorOf t.byName[p]).name := ⟨_, rfl⟩
+  have hlow : low q = nkey t.byName[p] := by
+    rw [hq]; exact low_cursor_name t.nameLen _ (hn _ (List.getElem_mem hp))
+  have Mn : Mono (cmpNameP q) t.byName :=
+    mono_of_sorted lexLaws nkey (low q) (cmpNameP q) t.byName (fun e _ => cmpNameP_sign q e) S
+  have U : Unique0 (cmpNameP q) t.byName := by
+    apply unique0_of_key _ _ (nkey t.byName[p]) (listable_nkey_ne _ hl) _ D
+    intro e _ h0
+    have := (lexCmp_eq_iff _ _).mp ((cmpNameP_sign q e).2.1.mp h0)
+    rw [← this, hlow]
+  have h0 : cmpNameP q t.byName[p] = 0 := by
+    apply (cmpNameP_sign q _).2.1.mpr
+    rw [hlow]; exact lexCmp_refl _
+  have hf := findIdx_self t.maxBoard (cmpName q) (cmpNameP q) (cmpName_eq q) t.byName Mn hv U p hp h0 isAsc
+  unfold startOfCursor
+  simp only
+  rw [← hq, liftM_ok _ _ hf]
+
+/-- in a sorted view the boards carrying a prefix are consecutive. -/
+theorem pref_contiguous (kw : List Nat) (h0 : ∀ x ∈ kw, x ≠ 0) (es : List Entry) (S : SortedBy lexCmp nkey es)
+    (i j k : Nat) (hij : i < j) (hjk : j < k) (hk : k < es.length)
+    (hi : pref kw (es[i]'(by omega)) = true) (hkp : pref kw es[k] = true) : pref kw (es[j]'(by omega)) = true := by
+  have S' := List.pairwise_iff_getElem.mp S
+  rw [pref_iff kw h0] at hi hkp ⊢
+  have h1 := lexLaws.le_trans _ _ _ (le_of_hasPrefix _ _ hi) (S' i j (by omega) (by omega) hij)
+  cases hp : hasPrefix (nkey (es[j]'(by omega))) (low kw) with
+  | true => rfl
+  | false =>
+    exfalso
+    cases hc : lexCmp (low kw) (nkey (es[j]'(by omega))) with
+    | gt => exact h1 hc
+    | eq =>
+      have := (lexCmp_eq_iff _ _).mp hc
+      rw [← this] at hp
+      have : hasPrefix (low kw) (low kw) = true := by rw [hasPrefix_iff]; exact List.prefix_refl _
+      rw [this] at hp; cases hp
+    | lt =>
+      have := no_prefix_above _ _ _ hc hp (S' j k (by omega) hk hjk)
+      rw [this] at hkp; cases hkp
+
+theorem mem_takeWhile_true {α : Type} (q : α → Bool) (l : List α) (x : α) (h : x ∈ l.takeWhile q) : q x = true := by
+  induction l with
+  | nil => simp at h
+  | cons a r ih =>
+    by_cases ha : q a = true
+    · simp only [List.takeWhile_cons, ha, if_true] at h
+      rcases List.mem_cons.mp h with rfl | h
+      · exact ha
+      · exact ih h
+    · simp [List.takeWhile_cons, ha] at h
+
+theorem dropWhile_eq_drop {α : Type} (q : α → Bool) (l : List α) : l.dropWhile q = l.drop (l.takeWhile q).length := by
+  induction l with
+  | nil => rfl
+  | cons a r ih =>
+    by_cases ha : q a = true
+    · simp [List.dropWhile_cons, List.takeWhile_cons, ha, ih]
+    · simp [List.dropWhile_cons, List.takeWhile_cons, ha]
+
+theorem dropWhile_head_false {α : Type} (q : α → Bool) (l : List α) (r0 : α) (rest : List α)
+    (h : l.dropWhile q = r0 :: rest) : q r0 = false := by
+  induction l with
+  | nil => simp at h
+  | cons a r ih =>
+    by_cases ha : q a = true
+    · simp only [List.dropWhile_cons, ha, if_true] at h
+      exact ih h
+    · simp only [List.dropWhile_cons, ha] at h
+      simp only [Bool.false_eq_true, if_false] at h
+      injection h with h1 _
+      rw [← h1]; simpa using ha
+
+/-- from the first position carrying `q`, "while `q`" collects exactly the elements carrying `q`. -/
+theorem takeWhile_filter_block (q ok : Entry → Bool) (os : List Entry) (k0 : Nat) (hk0 : k0 < os.length)
+    (hq0 : q os[k0] = true) (hbefore : ∀ k (hk : k < os.length), k < k0 → q os[k] = false)
+    (hcont : ∀ i j k (hij : i < j) (hjk : j < k) (hk : k < os.length),
+      q (os[i]'(by omega)) = true → q os[k] = true → q (os[j]'(by omega)) = true) :
+    ((os.drop k0).takeWhile q).filter ok = os.filter (fun e => q e && ok e) := by
+  have hsplit : os = os.take k0 ++ os.drop k0 := (List.take_append_drop k0 os).symm
+  have hA : (os.take k0).filter (fun e => q e && ok e) = [] := by
+    apply List.filter_eq_nil_iff.mpr
+    intro e he
+    obtain ⟨k, hk, rfl⟩ := List.getElem_of_mem he
+    simp only [List.length_take] at hk
+    rw [List.getElem_take, hbefore k (by omega) (by omega)]
+    simp
+  have hB : (os.drop k0) = (os.drop k0).takeWhile q ++ (os.drop k0).dropWhile q :=
+    List.takeWhile_append_dropWhile.symm
+  have hT : ((os.drop k0).takeWhile q).filter (fun e => q e && ok e) = ((os.drop k0).takeWhile q).filter ok := by
+    apply List.filter_congr
+    intro e he
+    rw [mem_takeWhile_true q _ e he]
+    simp
+  obtain ⟨tl, htl⟩ : ∃ tl, tl = ((os.drop k0).takeWhile q).length := ⟨_, rfl⟩
+  have hTpos : 0 < tl := by
+    rw [htl, List.drop_eq_getElem_cons hk0, List.takeWhile_cons, if_pos hq0]
+    simp
+  have hRd : (os.drop k0).dropWhile q = os.drop (k0 + tl) := by
+    rw [dropWhile_eq_drop, List.drop_drop, htl]
+  have hR : ((os.drop k0).dropWhile q).filter (fun e => q e && ok e) = [] := by
+    apply List.filter_eq_nil_iff.mpr
+    intro e he
+    rw [hRd] at he
+    obtain ⟨d, hd, hde⟩ := List.getElem_of_mem he
+    simp only [List.length_drop] at hd
+    rw [List.getElem_drop] at hde
+    have hj : k0 + tl < os.length := by omega
+    -- the element at `k0 + tl` is the first one behind the block: it does not carry `q`
+    have hr0 : q os[k0 + tl] = false := by
+      have hne : os.drop (k0 + tl) = os[k0 + tl] :: os.drop (k0 + tl + 1) := List.drop_eq_getElem_cons hj
+      exact dropWhile_head_false q (os.drop k0) _ _ (by rw [hRd]; exact hne)
+    cases hqe : q e with
+    | false => simp
+    | true =>
+      exfalso
+      cases d with
+      | zero =>
+        simp only [Nat.add_zero] at hde
+        rw [← hde, hr0] at hqe; cases hqe
+      | succ d =>
+        have := hcont k0 (k0 + tl) (k0 + tl + (d + 1)) (by omega) (by omega) (by omega) hq0 (by rw [hde]; exact hqe)
+        rw [hr0] at this; cases this
+  conv => rhs; rw [hsplit, List.filter_append, hA, List.nil_append, hB, List.filter_append, hT, hR, List.append_nil]
+
+/-- the boards a complete auto-complete walk must return. -/
+def visibleAuto (kw : List Nat) (es : List Entry) (isAsc : Bool) : List Entry :=
+  (oriented es isAsc).filter (fun e => pref kw e && listable e)
+
+theorem oriented_length (es : List Entry) (isAsc : Bool) : (oriented es isAsc).length = es.length := by
+  unfold oriented; split <;> simp
+
+theorem oriented_getElem (es : List Entry) (isAsc : Bool) (k : Nat) (hk : k < es.length) :
+    (oriented es isAsc)[k]'(by rw [oriented_length]; exact hk) = es[opos es isAsc k]'(by unfold opos; split <;> omega) := by
+  cases isAsc with
+  | true => simp [oriented, opos]
+  | false =>
+    simp only [oriented, opos, Bool.false_eq_true, if_false]
+    rw [List.getElem_reverse]
+
+theorem pref_contiguous_oriented (kw : List Nat) (h0 : ∀ x ∈ kw, x ≠ 0) (es : List Entry)
+    (S : SortedBy lexCmp nkey es) (isAsc : Bool)
+    (i j k : Nat) (hij : i < j) (hjk : j < k) (hk : k < (oriented es isAsc).length)
+    (hi : pref kw ((oriented es isAsc)[i]'(by omega)) = true) (hkp : pref kw (oriented es isAsc)[k] = true) :
+    pref kw ((oriented es isAsc)[j]'(by omega)) = true := by
+  have hl := oriented_length es isAsc
+  rw [oriented_getElem es isAsc i (by omega)] at hi
+  rw [oriented_getElem es isAsc k (by omega)] at hkp
+  rw [oriented_getElem es isAsc j (by omega)]
+  cases isAsc with
+  | true =>
+    simp only [opos, if_true] at hi hkp ⊢
+    exact pref_contiguous kw h0 es S i j k hij hjk (by omega) hi hkp
+  | false =>
+    simp only [opos, Bool.false_eq_true, if_false] at hi hkp ⊢
+    exact pref_contiguous kw h0 es S (es.length - 1 - k) (es.length - 1 - j) (es.length - 1 - i) (by omega) (by omega)
+      (by omega) hkp hi
+
+theorem loadAuto_cursor (t : Tbl) (hn : NamesLen t.nameLen t.byName)
+    (hv : ∀ e ∈ t.byName, e.bid + 1 ≤ t.maxBoard) (S : SortedBy lexCmp nkey t.byName) (D : DistinctNames t.byName)
+    (kw : List Nat) (n : Nat) (isAsc : Bool) (p : Nat) (hp : p < t.byName.length) (hl : listable t.byName[p] = true) :
+    loadAuto t (some (cursorOf t.byName[p])) (n : Int) kw isAsc =
+      liftM (pttLoad t.byName (notPrefixed kw) (Int.ofNat p + 1) (n : Int) isAsc) := by
+  unfold loadAuto
+  simp only [bind, Except.bind, pure, Except.pure]
+  rw [startOfCursor_name_self t hn hv S D p hp hl isAsc]
+  simp only
+  rw [if_neg (by simp only [Int.ofNat_eq_natCast]; omega)]
+
+/-- paging the auto-complete listing, given that the start search found the first (last) board with the prefix. -/
+theorem walkAuto_found (t : Tbl) (kw : List Nat) (h0 : ∀ x ∈ kw, x ≠ 0) (hn : NamesLen t.nameLen t.byName)
+    (hv : ∀ e ∈ t.byName, e.bid + 1 ≤ t.maxBoard) (S : SortedBy lexCmp nkey t.byName) (D : DistinctNames t.byName)
+    (n : Nat) (h1 : 1 ≤ n) (isAsc : Bool) (f : Nat) (hf : f < t.byName.length)
+    (hstart : autoStart t.maxBoard t.nameLen t.byName kw isAsc = .ok (Int.ofNat f + 1))
+    (hpf : pref kw t.byName[f] = true)
+    (hbefore : ∀ k (hk : k < t.byName.length), k < opos t.byName isAsc f →
+      pref kw ((oriented t.byName isAsc)[k]'(by rw [oriented_length]; exact hk)) = false) :
+    walkAuto t (n : Int) kw isAsc =
+      .ok (pagesOf n (visibleAuto kw t.byName isAsc).length (visibleAuto kw t.byName isAsc)) := by
+  have hk0 : opos t.byName isAsc f < (oriented t.byName isAsc).length := by
+    rw [oriented_length]; unfold opos; split <;> omega
+  have hk0' : opos t.byName isAsc f < t.byName.length := by rw [← oriented_length t.byName isAsc]; exact hk0
+  have hoo : opos t.byName isAsc (opos t.byName isAsc f) = f := by unfold opos; split <;> omega
+  have hW : window t.byName (notPrefixed kw) isAsc (opos t.byName isAsc f) = visibleAuto kw t.byName isAsc := by
+    unfold window visibleAuto
+    have hfun : (fun e => !notPrefixed kw e) = pref kw := by
+      funext e; simp [notPrefixed_eq]
+    rw [hfun]
+    apply takeWhile_filter_block (pref kw) listable (oriented t.byName isAsc) (opos t.byName isAsc f) hk0
+    · rw [oriented_getElem t.byName isAsc _ hk0']
+      simp only [hoo]; exact hpf
+    · intro k hk hlt
+      exact hbefore k (by rw [← oriented_length t.byName isAsc]; exact hk) hlt
+    · intro i j k hij hjk hk hi hkp
+      exact pref_contiguous_oriented kw h0 t.byName S isAsc i j k hij hjk hk hi hkp
+  rw [← hW]
+  unfold walkAuto
+  apply walk_listing t.byName (notPrefixed kw) _ .name isAsc n h1 (opos t.byName isAsc f)
+  · show loadAuto t none (n : Int) kw isAsc = _
+    unfold loadAuto
+    simp only [bind, Except.bind, pure, Except.pure]
+    rw [liftM_ok _ _ hstart]
+    simp only
+    rw [if_neg (by simp only [Int.ofNat_eq_natCast]; omega)]
+    exact liftM_ok _ _ (pttLoad_at t.byName (notPrefixed kw) f hf n isAsc)
+  · intro p hp hl
+    exact loadAuto_cursor t hn hv S D kw n isAsc p hp hl
+  · intro e _ hl items
+    exact nextCursor_name e hl items
+
+/-- nothing carries the prefix: one empty page. -/
+theorem walkAuto_none (t : Tbl) (kw : List Nat) (n : Nat) (isAsc : Bool)
+    (hstart : autoStart t.maxBoard t.nameLen t.byName kw isAsc = .ok (-1))
+    (hno : ∀ e ∈ t.byName, pref kw e = false) :
+    walkAuto t (n : Int) kw isAsc =
+      .ok (pagesOf n (visibleAuto kw t.byName isAsc).length (visibleAuto kw t.byName isAsc)) := by
+  have hV : visibleAuto kw t.byName isAsc = [] := by
+    unfold visibleAuto
+    apply List.filter_eq_nil_iff.mpr
+    intro e he
+    have : e ∈ t.byName := by
+      unfold oriented at he
+      split at he
+      · exact he
+      · exact List.mem_reverse.mp he
+    rw [hno e this]; simp
+  rw [hV]
+  unfold walkAuto walkFuel
+  rw [walkFrom]
+  unfold loadAuto
+  simp only [bind, Except.bind, pure, Except.pure]
+  rw [liftM_ok _ _ hstart]
+  rfl
+
+/-- paging the auto-complete listing: every listable board carrying the prefix, once, in order. -/
+theorem walkAuto_eq (t : Tbl) (kw : List Nat) (h0 : ∀ x ∈ kw, x ≠ 0) (hn : NamesLen t.nameLen t.byName)
+    (hv : ∀ e ∈ t.byName, e.bid + 1 ≤ t.maxBoard) (S : SortedBy lexCmp nkey t.byName) (D : DistinctNames t.byName)
+    (n : Nat) (h1 : 1 ≤ n) (isAsc : Bool)
+    (hstart : autoStart t.maxBoard t.nameLen t.byName kw isAsc = .ok (specAuto kw t.byName isAsc)) :
+    walkAuto t (n : Int) kw isAsc =
+      .ok (pagesOf n (visibleAuto kw t.byName isAsc).length (visibleAuto kw t.byName isAsc)) := by
+  cases isAsc with
+  | true =>
+    rcases scanFirst_spec (pref kw) t.byName 0 with ⟨h1', h2⟩ | ⟨f, hf, h1', h2, h3⟩
+    · apply walkAuto_none t kw n true _ h2
+      rw [hstart]; simp [specAuto, h1']
+    · apply walkAuto_found t kw h0 hn hv S D n h1 true f hf _ h2
+      · intro k hk hlt
+        simp only [opos, if_true] at hlt
+        simpa [oriented] using h3 k hlt
+      · rw [hstart]
+        simp only [specAuto, if_true, h1', Nat.zero_add]
+        rw [if_neg (by simp only [Int.ofNat_eq_natCast]; omega)]
+  | false =>
+    rcases scanLast_spec (pref kw) t.byName with ⟨h1', h2⟩ | ⟨f, hf, h1', h2, h3⟩
+    · apply walkAuto_none t kw n false _ h2
+      rw [hstart]; simp [specAuto, h1']
+    · apply walkAuto_found t kw h0 hn hv S D n h1 false f hf _ h2
+      · intro k hk hlt
+        simp only [opos, Bool.false_eq_true, if_false] at hlt
+        have := oriented_getElem t.byName false k hk
+        rw [this]
+        simp only [opos, Bool.false_eq_true, if_false]
+        exact h3 _ (by omega) (by omega)
+      · rw [hstart]
+        simp only [specAuto, Bool.false_eq_true, if_false, h1']
+        rw [if_neg (by simp only [Int.ofNat_eq_natCast]; omega)]
+
 end PttVerif.C11
